@@ -475,11 +475,48 @@ def slice_seq(s: Term, lo: Optional[int], hi: Optional[int]) -> Term:
     # single open-ended source: stay symbolic
     out: List[Term] = []
     pos = 0
+    skip: set = set()
     for i, a in enumerate(atoms):
+        if id(a) in skip:
+            continue
+        if hi is not None and hi >= 0 and pos >= hi:
+            break
         aw = atom_width(a)
         if aw is None:
             return top("slice over atom of unknown width")
         if not aw.is_const():
+            # a run of variable-width atoms whose widths add up to a constant is one fixed-width unit
+            gw = aw
+            j = i + 1
+            while not gw.is_const() and j < len(atoms):
+                nw = atom_width(atoms[j])
+                if nw is None:
+                    break
+                gw = gw + nw
+                j += 1
+            if gw.is_const() and j > i + 1 and id(a) not in skip:
+                gwc = int(gw.const)
+                g_lo, g_hi = pos, pos + gwc
+                end = hi if (hi is not None and hi >= 0) else None
+                if lo <= g_lo and (end is None or end >= g_hi):
+                    out.extend(atoms[i:j])
+                    for x in atoms[i + 1:j]:
+                        skip.add(id(x))
+                    pos = g_hi
+                    skipn = j - i - 1
+                    continue_group = True
+                elif g_hi <= lo or (end is not None and end <= g_lo):
+                    for x in atoms[i + 1:j]:
+                        skip.add(id(x))
+                    pos = g_hi
+                    continue_group = True
+                else:
+                    return top(f"slice cuts through the variable-width group starting at {show_atom(a)}")
+                if continue_group:
+                    continue
+            if hi is None and lo <= pos:
+                out.extend(x for x in atoms[i:] if id(x) not in skip)
+                return seq(kind, out)
             # variable-width atom: only sliceable if it is the atom that holds the range start..end
             if a[0] in ("hx", "HX") and a[3] is None or (a[0] in ("hx", "HX") and a[3] is not None and a[3] < 0):
                 rel_lo = max(0, lo - pos)
@@ -816,4 +853,12 @@ def show(v: Any) -> str:
         return f"TOP[{v[1]}]"
     if t == "ext":
         return f"<{v[1]}>"
+    if t in ("class", "func", "module"):
+        return f"<{t} {getattr(v[1], 'key', getattr(v[1], 'name', '?'))}>"
+    if t == "bound":
+        return f"<bound {v[2].key}>"
+    if t in ("lambda", "partialobj"):
+        return f"<{t}>"
+    if t == "builtin":
+        return f"<builtin {v[1]}>"
     return "(" + " ".join(show(x) if isinstance(x, (tuple, Lin)) else repr(x) for x in v) + ")"
